@@ -230,9 +230,16 @@ class Parser:
                         and t.value.upper() not in SYMBOL_ATTRIBUTES
                     ):
                         t.type = "UNQUOTED_STRING_VALUE"
+                    elif previous == "STYLE" and t.value.upper() == "NORMAL":
+                        # QUERYMAP STYLE NORMAL - NORMAL is always a value, not a STYLE attribute
+                        t.type = "UNQUOTED_STRING_VALUE"
                 elif t.type == "GRID":
                     # Unquoted 'GRID' coming after NAME is always a value, not a composite type
                     if previous == "NAME":
+                        t.type = "UNQUOTED_STRING_VALUE"
+                elif t.type == "FEATURE":
+                    # Unquoted 'FEATURE' coming after IMAGEMODE is always a value, not a composite type
+                    if previous == "IMAGEMODE":
                         t.type = "UNQUOTED_STRING_VALUE"
 
             tree = ip.resume_parse()
